@@ -91,6 +91,32 @@ class Check:
                                   "with the design it claims (not a property of the code)" % (module, cfg, r["violated"]))
         return r
 
+    def mc_dump(self, cfg, module, timeout=3000):
+        """MC of a kernel spec; returns the parsed reachable states (cases / edges) or None."""
+        try:
+            r, states = tlc.model_check_dump(module, cfg, timeout=timeout)
+        except tlc.TLCFailure as e:
+            self.machinery.append("TLC failure on %s: %s" % (cfg, str(e)[-1500:]))
+            return None
+        self.states += r["stats"]["distinct"]
+        self.transitions += r["stats"]["generated"]
+        self.mc_runs.append({"cfg": cfg, "module": module, "distinct": r["stats"]["distinct"],
+                             "generated": r["stats"]["generated"], "wall_s": round(r["wall"], 1), "violated": r["violated"]})
+        if not r["ok"]:
+            self.machinery.append("kernel specification %s/%s violates %s: the specification contradicts the mathematical "
+                                  "statement it was written to establish" % (module, cfg, r["violated"]))
+            return None
+        return states
+
+    def kernel_violation(self, sig, detail):
+        """A replayed kernel case on which the real code disagrees with the specification."""
+        for k in self.known:
+            m = k["match"]
+            if m.get("clause") == sig[0] and _sub(m.get("case", {}), detail):
+                self.known_seen[k["id"]] = self.known_seen.get(k["id"], 0) + 1
+                return
+        self.add_violation(sig, detail, None)
+
     # ---- trace validation
     def tv(self, gspecs, label="sweep", sig=None):
         """Run groups, validate, attribute notes.  sig(note)->hashable signature for dedup."""
